@@ -1017,7 +1017,49 @@ func vC20RandA(r *rand.Rand, qname string) (*dns.Msg, bool) {
 			m.Ns = []dns.RR{&dns.NS{Hdr: dns.RR_Header{Name: "u.", Rrtype: dns.TypeNS, Class: dns.ClassINET, Ttl: 5}, Ns: "ns.u."}}
 		}
 	}
+	vC20ReorderAnswer(r, m)
 	return m, wf
+}
+
+// The order of the records in an Answer section carries no meaning (RRset
+// rotation, servers that append the alias chain after the addresses, caches
+// that rebuild a message from RRsets): one scenario in four with more than
+// one record lists them in another order — rotated, reversed, addresses
+// first, hops swapped pairwise, or shuffled.  The alias chain stays the same
+// chain (wf is about owners and targets, not positions).
+func vC20ReorderAnswer(r *rand.Rand, m *dns.Msg) {
+	n := len(m.Answer)
+	if n < 2 || r.Intn(4) != 0 {
+		return
+	}
+	a := append([]dns.RR(nil), m.Answer...)
+	switch r.Intn(5) {
+	case 0: // rotate
+		k := 1 + r.Intn(n-1)
+		a = append(append([]dns.RR(nil), a[k:]...), a[:k]...)
+	case 1: // reverse
+		for i, j := 0, n-1; i < j; i, j = i+1, j-1 {
+			a[i], a[j] = a[j], a[i]
+		}
+	case 2: // addresses (and anything else) first, the chain last
+		var chain, rest []dns.RR
+		for _, rr := range a {
+			switch rr.(type) {
+			case *dns.CNAME, *dns.DNAME:
+				chain = append(chain, rr)
+			default:
+				rest = append(rest, rr)
+			}
+		}
+		a = append(rest, chain...)
+	case 3: // neighbours swapped
+		for i := 0; i+1 < n; i += 2 {
+			a[i], a[i+1] = a[i+1], a[i]
+		}
+	default:
+		r.Shuffle(n, func(i, j int) { a[i], a[j] = a[j], a[i] })
+	}
+	m.Answer = a
 }
 
 func vC20ClientIP(r *rand.Rand, cfg *compiled) net.IP {
